@@ -7,7 +7,7 @@ import time
 
 import z3
 
-from .symexec import SPEC_NATIVE
+from .symexec import SPEC_NATIVE, is_nonlinear
 
 Z3_TIMEOUT_MS = int(os.environ.get("PYVC_Z3_TIMEOUT_MS", "20000"))
 CVC5_TIMEOUT_S = int(os.environ.get("PYVC_CVC5_TIMEOUT_S", "60"))
@@ -54,43 +54,56 @@ def check_smt2(smt2, want=(), timeout_ms=None, use_cvc5=True):
     ctx = z3.Context()
     asserts = z3.parse_smt2_string(smt2, ctx=ctx)
     asserts = list(asserts)
-    s = z3.Solver(ctx=ctx)
-    s.set("timeout", timeout_ms)
-    if _has_quant(asserts):
-        s.set("smt.mbqi", False)
-    s.add(*asserts)
+    hasq = _has_quant(asserts)
     apps = _spec_apps(asserts)
+    # portfolio: short default attempt first, then other seeds / arithmetic settings with growing budgets
+    # (quantifier instantiation and nonlinear arithmetic are seed-sensitive; a slow query is retried, never guessed)
+    budget = timeout_ms
+    attempts = [({}, min(5000, budget)), ({"smt.random_seed": 7}, min(10000, budget)), ({"smt.arith.nl": False}, min(8000, budget)),
+                ({"smt.random_seed": 23}, budget), ({"smt.random_seed": 101}, 2 * budget)]
     rounds = 0
-    r = s.check()
-    while r == z3.sat and rounds < 8:
-        # ground refinement: make the model's spec functions agree with their native definitions
-        m = s.model()
-        added = 0
-        for a in apps:
-            try:
-                argv = [m.eval(c, model_completion=True) for c in a.children()]
-                if not all(z3.is_int_value(v) for v in argv):
-                    continue
-                args = [v.as_long() for v in argv]
-                name = a.decl().name()
-                if name == "pow2" and not (0 <= args[0] <= 4096):
-                    continue
-                if name == "bitof" and not (args[0] >= 0 and 0 <= args[1] <= 4096):
-                    continue
-                if name in ("band", "bor") and (args[0] < 0 or args[1] < 0):
-                    pass
-                want_v = SPEC_NATIVE[name](*args)
-                got = m.eval(a, model_completion=True)
-                if z3.is_int_value(got) and got.as_long() != want_v:
-                    s.add(a.decl()(*[z3.IntVal(x, ctx=ctx) for x in args]) == z3.IntVal(want_v, ctx=ctx))
-                    added += 1
-            except Exception:
-                continue
-        if not added:
-            break
-        rounds += 1
+    used = ""
+    for (cfg, tmo) in attempts:
+        s = z3.Solver(ctx=ctx)
+        s.set("timeout", int(tmo))
+        if hasq:
+            s.set("smt.mbqi", False)
+        for k, v in cfg.items():
+            s.set(k, v)
+        s.add(*asserts)
         r = s.check()
-    out = {"status": str(r), "solver": "z3-" + z3.get_version_string(), "rounds": rounds, "model": {}, "reason": ""}
+        while r == z3.sat and rounds < 8:
+            # ground refinement: make the model's spec functions agree with their native definitions
+            m = s.model()
+            added = 0
+            for a in apps:
+                try:
+                    argv = [m.eval(c, model_completion=True) for c in a.children()]
+                    if not all(z3.is_int_value(v) for v in argv):
+                        continue
+                    args = [v.as_long() for v in argv]
+                    name = a.decl().name()
+                    if name == "pow2" and not (0 <= args[0] <= 4096):
+                        continue
+                    if name == "bitof" and not (args[0] >= 0 and 0 <= args[1] <= 4096):
+                        continue
+                    want_v = SPEC_NATIVE[name](*args)
+                    got = m.eval(a, model_completion=True)
+                    if z3.is_int_value(got) and got.as_long() != want_v:
+                        ground = a.decl()(*[z3.IntVal(x, ctx=ctx) for x in args]) == z3.IntVal(want_v, ctx=ctx)
+                        s.add(ground)
+                        asserts.append(ground)
+                        added += 1
+                except Exception:
+                    continue
+            if not added:
+                break
+            rounds += 1
+            r = s.check()
+        used = ",".join("%s=%s" % kv for kv in cfg.items())
+        if r != z3.unknown:
+            break
+    out = {"status": str(r), "solver": "z3-" + z3.get_version_string() + ((" (" + used + ")") if used else ""), "rounds": rounds, "model": {}, "reason": ""}
     if r == z3.sat:
         m = s.model()
         vals = {}
@@ -104,19 +117,6 @@ def check_smt2(smt2, want=(), timeout_ms=None, use_cvc5=True):
         out["model_text"] = str(m)[:4000]
     elif r == z3.unknown:
         out["reason"] = s.reason_unknown()
-        # portfolio: the same query under other seeds / arithmetic settings (stability under load)
-        for (k, v) in (("smt.random_seed", 7), ("smt.arith.nl", False), ("smt.random_seed", 23)):
-            s2 = z3.Solver(ctx=ctx)
-            s2.set("timeout", max(5000, timeout_ms // 2))
-            if _has_quant(asserts):
-                s2.set("smt.mbqi", False)
-            s2.set(k, v)
-            s2.add(*asserts)
-            if s2.check() == z3.unsat:
-                out["status"] = "unsat"
-                out["solver"] += " (%s=%s)" % (k, v)
-                out["seconds"] = time.time() - t0
-                return out
         if use_cvc5:
             c = check_cvc5(smt2)
             if c["status"] == "unsat":
@@ -156,7 +156,19 @@ def check_cvc5(smt2, timeout_s=None):
 def _job(args):
     oid, smt2, want, timeout_ms = args
     try:
-        r = check_smt2(smt2, want, timeout_ms)
+        if isinstance(smt2, tuple):
+            # (linear-only variant, full text): the cheaper query first; fewer hypotheses is always sound for 'unsat'
+            lin, full = smt2
+            r = None
+            if lin is not None:
+                r0 = check_smt2(lin, want, 4000, use_cvc5=False)
+                if r0["status"] == "unsat":
+                    r0["solver"] += " (nonlinear hypotheses dropped)"
+                    r = r0
+            if r is None:
+                r = check_smt2(full, want, timeout_ms)
+        else:
+            r = check_smt2(smt2, want, timeout_ms)
     except Exception as e:  # solver crash is 'unknown', never a verdict
         r = {"status": "unknown", "solver": "z3", "seconds": 0.0, "model": {}, "reason": "solver error: %r" % (e,), "rounds": 0}
     r["id"] = oid
@@ -173,7 +185,11 @@ def discharge(obls, jobs=None, timeout_ms=None):
         if z3.is_true(g):
             results[o.id] = {"id": o.id, "status": "unsat", "solver": "simplify", "seconds": 0.0, "model": {}, "rounds": 0, "reason": ""}
             continue
-        work.append((o.id, o.to_smt2(), (), timeout_ms))
+        full = o.to_smt2()
+        lin = None
+        if any(is_nonlinear(h) for h in o.hyps) and not is_nonlinear(o.goal):
+            lin = o.to_smt2(linear_only=True)
+        work.append((o.id, (lin, full), (), timeout_ms))
     if work:
         if jobs <= 1 or len(work) == 1:
             for w in work:
